@@ -54,8 +54,11 @@ def run(ctx):
     crnd = random.Random(ctx.seed * 7919 + 55)
     configs = [('C21', 1, 1, 0), ('C102u', 2, 2, 1)] if quick else [('C21', 1, 1, 0), ('C21', 2, 2, 0), ('C102u', 2, 2, 1), ('C22', 2, 2, 1), ('C22', 2, 1, 0)]
     if hconf is not None:
-        hconf.shared = hconf.learn(poolconf.scen_for("C2", 1, 1, 0, JUDGE), crnd)
+        sc0 = poolconf.scen_for("C2", 1, 1, 0, JUDGE)
+        sc0.update(pool="factory", quota=1)
+        hconf.shared = hconf.learn(sc0, crnd) | hconf.learn(poolconf.scen_for("C2", 1, 1, 0, JUDGE), crnd)
     poolconf.design_legs(ctx, configs, ['CallOK', 'NoBad', 'NoLeftovers', 'NoDeadlock'], False, ['CallOK'], hconf, crnd, 30 if quick else 300, 30 if quick else 300, JUDGE)
+    poolconf.factory_conformance(ctx, hconf, crnd, quick, JUDGE)
     poolconf.factory_design_legs(ctx, quick, ['CallOK', 'NoBad', 'NoDeadlock'], 'stale', ['NoDeadlock'])
     rnd = random.Random(ctx.seed * 7919 + 103)
     C01.run_family(ctx, scenarios(rnd, quick), 400 if quick else 15000, "C03")
